@@ -269,23 +269,25 @@ func (h *histRun) step(r roundIn) {
 }
 
 func histCase(in histIn, tags ...string) caseRec {
-	h, err := newHistRun(in.Cfgs)
-	if err != nil {
-		fatal(err)
-	}
-	for _, r := range in.Rounds {
-		h.step(r)
-	}
 	var cfgs []string
 	for _, c := range in.Cfgs {
 		cfgs = append(cfgs, coqCfg(c))
+	}
+	h, err := newHistRun(in.Cfgs)
+	if err != nil {
+		// the plugin factory refused a configuration: no instance, no rounds (C03: "for every ACCEPTED configuration")
+		coq := fmt.Sprintf("{| hc_cfgs := %s; hc_hashes := []; hc_rejected := true; hc_rounds := [] |}", coqList(cfgs))
+		return caseRec{Input: in, Output: "factory refused the configuration: " + err.Error(), Coq: coq, Tags: append(tags, "config-refused")}
+	}
+	for _, r := range in.Rounds {
+		h.step(r)
 	}
 	var hs []string
 	for k := range h.hashes {
 		hs = append(hs, k)
 	}
 	sort.Strings(hs)
-	coq := fmt.Sprintf("{| hc_cfgs := %s; hc_hashes := %s; hc_rounds := %s |}", coqList(cfgs), coqList(hs), "[\n   "+joinLines(h.rounds)+"]")
+	coq := fmt.Sprintf("{| hc_cfgs := %s; hc_hashes := %s; hc_rejected := false; hc_rounds := %s |}", coqList(cfgs), coqList(hs), "[\n   "+joinLines(h.rounds)+"]")
 	return caseRec{Input: in, Output: h.outs, Coq: coq, Tags: tags}
 }
 
